@@ -129,3 +129,5 @@ func vpOneRecord(i, extra int) []byte {
 }
 
 func vpKeyOf(rec any) []byte { return vpKey(rec.(*Fastq)) }
+
+func vpBlankLinesOK() bool { return false }
